@@ -423,9 +423,9 @@ func c15xyz(c *fw.Ctx, idx int) {
 
 func init() {
 	fw.Register(&fw.Monitor{
-		ID:    "C15",
-		Title: "2D and 3D distance functions return the true minimum distance",
-		Rule: "xy.DistanceFromPointToLine / DistanceFromPointToLineString / DistanceFromLineToLine / PerpendicularDistanceFromPointToLine and xyz.Distance / DistancePointToLine / DistanceLineToLine compared with exact rational squared distances (3D segment-segment by exact minimisation of the quadratic over the unit square), square root at 400 bits, tolerance 1e-9*max(1,max|ordinate|); integer grids 4..2^20; classes generic, degenerate first/second/both, parallel, collinear, crossing, touching, T-touch, skew with both parameters outside [0,1], skew interior; every segment pair in all 8 presentations; NaN never accepted. distinct_nontrivial = distinct segment pairs",
+		ID:     "C15",
+		Title:  "2D and 3D distance functions return the true minimum distance",
+		Rule:   "xy.DistanceFromPointToLine / DistanceFromPointToLineString / DistanceFromLineToLine / PerpendicularDistanceFromPointToLine and xyz.Distance / DistancePointToLine / DistanceLineToLine compared with exact rational squared distances (3D segment-segment by exact minimisation of the quadratic over the unit square), square root at 400 bits, tolerance 1e-9*max(1,max|ordinate|); integer grids 4..2^20; classes generic, degenerate first/second/both, parallel, collinear, crossing, touching, T-touch, skew with both parameters outside [0,1], skew interior; every segment pair in all 8 presentations; NaN never accepted. distinct_nontrivial = distinct segment pairs",
 		Assume: []string{"math/big exact; near-parallel (not parallel) 3D pairs judged only on grids <= 2^8 where the double computation of a*c-b*b is exact"},
 		Classes: []fw.Class{
 			{Name: "xy", Quick: 40000, Thorough: 3000000, Run: c15xy},
